@@ -266,7 +266,7 @@ def c06_family(ctx: Ctx):
         text = f"states(x=0.5)\nparameters(p={c})\ndx_dt = Conditional(Gt(x, 2), -p*x, Conditional(Lt(x, 0.5), 0, p - x))\n"
     else:
         text = f"states(x=0.5)\nparameters(p={c})\ndx_dt = Conditional(Gt(x, 1), -p*x, p*sin(x))\n"
-    delta = rng.choice([1e-8, 1e-8, 0.0, 1e-3, 0.5])
+    delta = rng.choice([1e-8, 0.0, 1e-3, 0.5, 0.5, 2.0])
     pts = []
     for _ in range(4):
         mag = rng.choice([1.0, 1e-3, 1e3, 1e9, 1e17, 3.0])
@@ -274,7 +274,7 @@ def c06_family(ctx: Ctx):
               "a": float(rng.choice([1e-9, 5e-9, 2e-8, -3e-9, -0.7, 2.5])), "b": float(c), "t": 0.0,
               "dt": float(rng.choice([1.0, 0.1, 1e-3, 0.0]))}
         pts.append(pt)
-    return {"text": text, "delta": delta, "points": pts}
+    return {"text": text, "delta": delta, "points": pts, "alias": rng.choice(["generalized_rush_larsen", "forward_generalized_rush_larsen"])}
 
 
 # ================================================================== C07
@@ -288,8 +288,17 @@ def c07_case(ctx: Ctx, case: dict):
     stiff = case.get("stiff")
     if stiff is None:
         stiff = [s for s in states if ctx.rng.random() < 0.5]
+        # a stiff name that is a proper prefix of a non-stiff state's name (m / mL), and vice versa
+        pairs = [(a, b_) for a in states for b_ in states if a != b_ and b_.startswith(a)]
+        if pairs and ctx.rng.random() < 0.8:
+            a, b_ = ctx.rng.choice(pairs)
+            if ctx.rng.random() < 0.7:
+                stiff = [s for s in stiff if s != b_] + ([a] if a not in stiff else [])
+            else:
+                stiff = [s for s in stiff if s != a] + ([b_] if b_ not in stiff else [])
+            ctx.count("prefix_pair_cases")
         if ctx.rng.random() < 0.3:
-            stiff.append("not_a_state")
+            stiff.append(ctx.rng.choice(["not_a_state", states[0] + "_x", states[0][:-1] or "q", "d" + states[0] + "_dt"]))
     delta = case.get("delta", 1e-8)
     schemes = [Scheme.explicit_euler, Scheme.generalized_rush_larsen, Scheme.hybrid_rush_larsen]
     b = oracle.build_py(ctx, text, "C07", rm=rm, ode=b0.ode, on_codegen_error="skip", scheme=schemes, stiff_states=stiff, delta=delta)
@@ -573,7 +582,7 @@ def unused_cfg(ctx, k):
 
 
 def scheme_cfg(ctx, k):
-    cfg = gen.ModelCfg()
+    cfg = gen.ModelCfg(p_prefix_names=0.5)
     cfg.depth = 2 + (k % 2)
     cfg.expr = gen.ExprCfg(p_floor=0.01, p_mod=0.01)
     return cfg
